@@ -29,6 +29,8 @@ META = {
         "engine theorems are about the propositional instantiation of SolverStuff (ground and-or graphs)",
         "termination of non-ground SLG / recursive search (subgoal abstraction, truncation) is not formalised: bounded-work runs only",
         "a CPU-limit hit is reported as inconclusive (exponential instances N2/N5 are bounded, hence not violations)",
+        "rec_fuel_bound is PARTIAL: proved are fuel monotonicity and absence of internal panics; that the explicit fuel_bound "
+        "suffices (at most three loop iterations per visit) is only validated on every generated instance",
     ],
     "quick_s": 60, "thorough_s": 700,
 }
@@ -46,8 +48,11 @@ def engine_part(ctx):
         ov = rng.choice([2, 3, 5, 40, 40, 40])
         cases.append((G, ov, rng.random() < 0.5, [], [], hist))
     real, lines = E.run_real(cases)
-    bad = E.model_mismatches(ctx, "work", cases, real)
+    # the model is run with EXACTLY the explicit fuel bound of Engine/RecFuel.v (fuel_bound): an OutOfFuel
+    # outcome of the model, or any difference in value / step counts / cache, is a mismatch
+    bad = E.model_mismatches(ctx, "work", cases, real, fn=E.BOUND_FN, imports=("Engine.RecFuel",))
     ctx.cov["engine_model_mismatches"] = len(bad)
+    ctx.cov["fuel_bound_validated_on"] = len(cases)
     worst = 0
     for c, r in zip(cases, real):
         ctx.count("engine-work", (E.graph_sx(c[0]), c[1], c[2], tuple(c[5])))
